@@ -43,7 +43,8 @@ class Contract(object):
     def __init__(self, qual, params=None, ret=None, requires=(), ensures=(), raises=None,
                  modifies=(), loops=None, trusted=False, kind='function', note='',
                  pure=False, defaults=None, exc_modifies=None, tags=(), must_fail=(), axioms=(),
-                 ghost_at=None, rely=None, detached=None, yield_guarantee=(), inline=None, assumed=()):
+                 ghost_at=None, rely=None, detached=None, yield_guarantee=(), inline=None, assumed=(),
+                 call_requires=None, local_types=None):
         self.qual = qual
         self.params = dict(params or {})
         self.ret = ret
@@ -66,6 +67,10 @@ class Contract(object):
         self.rely = rely                   # coroutine: name of the rely relation at suspension points
         self.detached = detached           # coroutine: contract of the synchronous prefix when not awaited
         self.yield_guarantee = list(yield_guarantee)
+        # callee short name -> [(name, spec)]: extra obligations at every call of that callee made by THIS function,
+        # over the caller's state with the callee's bound parameters visible as arg_<param>
+        self.call_requires = dict(call_requires or {})
+        self.local_types = dict(local_types or {})   # local name -> Ty of an initially empty container literal
         self.assumed = list(assumed)       # clauses assumed at call sites but NOT proved from the body (reported as assumptions)
         self.inline = inline               # pure accessor: result is exactly this spec expression (must also be an ensures)
         self.must_fail = list(must_fail)   # deliberately false postconditions (vacuity guard)
@@ -101,6 +106,8 @@ class Spec(object):
         self.handlers = {}         # extern qual -> python handler(engine, st, args, kw, node)
         self.relies = {}           # name -> Rely
         self.method_handlers = {}  # method name on an opaque object -> handler(engine, st, recv, args, node)
+        self.local_ghosts = set()  # invocation-local ghost counters (written only by their owner's ghost_at)
+        self.nonnull = set()       # (declaring class, field): reference fields that are never None (class invariant)
 
     def Class(self, name, **kw):
         c = ClassDecl(name, **kw)
